@@ -111,10 +111,95 @@ def run(ctx):
     ctx.control("append-mode opens visible to the scanner", n_append >= 1,
                 f"{n_append} append-mode open() sites package-wide")
     _check_writers(ctx, reach_all)
+    _check_outputs_initialised(ctx)
     # ---------------------------------------------------------------- c
     _check_level_cleanup(ctx)
+    _check_no_dropped_effects(ctx, reach_all)
     # ---------------------------------------------------------------- d
     _check_input_replacement(ctx, reach_all)
+
+
+def _check_outputs_initialised(ctx):
+    """Every path that assign_confidence hands on as a result file (it is
+    appended to later, header-less) has been initialised - header written,
+    old content truncated - by a writer created for that very path."""
+    prog = ctx.prog
+    g = prog.func("mokapot.confidence.assign_confidence")
+    from ..cfg import CFG
+    from ..events import container_events, root_name
+    from ..tutil import no_uids
+    cfg = CFG(g.node)
+    T = Terms(DefUse(prog, g), phi_vars=True)
+    evs = container_events(g.node, T, cfg)
+    lc = [n for n in ast.walk(g.node) if isinstance(n, ast.Call)
+          and ast.unparse(n.func) == "LinearConfidence"]
+    ctx.require(len(lc) == 1, f"{g.qual}: LinearConfidence call not found")
+    op = {k.arg: k.value for k in lc[0].keywords}.get("out_paths")
+    ctx.require(op is not None, f"{g.qual}: out_paths not passed")
+    roots = {x[1] for x in walk_term(T.of(op)) if isinstance(x, tuple)
+             and x and x[0] == "var"}
+    handed = []         # (path term, condition strings)
+    for e in evs:
+        if root_name(e.recv) not in roots:
+            continue
+        vals = []
+        if e.kind == "store" and e.value[0] == "list":
+            vals = list(e.value[1])
+        elif e.kind == "append":
+            vals = list(e.args)
+        for v in vals:
+            handed.append((no_uids(v), set(cfg.conditions(e.stmt)), e.node))
+    ctx.floor("C09b-result-paths", len(handed), 2)
+    inits = []
+    for n in ast.walk(g.node):
+        if isinstance(n, ast.Call) and isinstance(n.func, ast.Attribute) \
+                and n.func.attr == "initialize":
+            r = T.of(n.func.value)
+            if r[0] == "call" and r[1].endswith("TabularDataWriter."
+                                                "from_suffix") and r[2]:
+                inits.append((no_uids(r[2][0]),
+                              set(cfg.conditions(cfg.stmt_of(n)))))
+    for path, conds, node in handed:
+        mine = [c for p_, c in inits if p_ == path]
+        ok = bool(mine) and any(
+            conds <= c and c - conds <= {"not append_to_output_file"}
+            for c in mine)
+        ctx.check(ok, "C09b-result-file-initialised", g,
+                  f"result file {show(path, 60)} is initialised (header, "
+                  "truncation) by a writer for that path before rows are "
+                  "appended to it",
+                  f"no writer created for {show(path, 80)} is initialised "
+                  f"under {sorted(conds)}: rows are appended to a file "
+                  "without header, or to whatever an earlier run left "
+                  f"there (initialised paths: "
+                  f"{[show(p_, 50) for p_, _c in inits]})", node=node)
+
+
+def _check_no_dropped_effects(ctx, reach_all):
+    """Removal / write effects wrapped in a lazy iterator that nobody
+    consumes never happen (map(os.unlink, paths) as a statement)."""
+    from ..effects import dropped_lazy_effects
+    prog = ctx.prog
+    probe = ast.parse("def _p(xs):\n    map(os.unlink, xs)\n"
+                      "    (os.unlink(x) for x in xs)\n").body[0]
+    ctx.control("dropped lazy iterators are visible to the scanner",
+                len(dropped_lazy_effects(probe)) == 2,
+                "probe with map(...) and a generator expression statement")
+    n = 0
+    for q in sorted(reach_all):
+        f = prog.funcs.get(q)
+        if f is None or isinstance(f.node, ast.Lambda):
+            continue
+        n += 1
+        for e in dropped_lazy_effects(f.node):
+            ctx.fail("C09c-effects-actually-run", f,
+                     f"'{ast.unparse(e)[:60]}' as a statement",
+                     "a lazy iterator is built and dropped: the function "
+                     "inside is never called, so the files it should remove "
+                     "or write stay as they are", node=e)
+    ctx.ok("C09c-effects-actually-run", "mokapot",
+           f"{n} functions reachable from the entry points: no map / "
+           "filter / generator expression used as a statement")
 
 
 def _check_rollup_filter(ctx):
